@@ -478,10 +478,6 @@ impl HashedNTupleObjectIdLayoutExtension {
             .unwrap()
             .into();
 
-        if self.config.tuple_size == 0 {
-            return digest;
-        }
-
         let mut path = to_tuples(
             &digest,
             self.config.tuple_size,
